@@ -267,7 +267,12 @@ struct Node {
     int twin_of = -1;
     uint32_t dyn_failmask = 0;
     bool usable = true;
-    void *ctx() { return (void *)this; }
+    // the context pointer the daemon hands to the core: the node itself, or - after the interface was re-created (hot-plug) - a fresh
+    // address from the node's slot array; the core keeps one record per context pointer it has ever seen
+    uint8_t ctxslot[256];
+    int ctx_gen = 0;
+    void *ctx() { return ctx_gen == 0 ? (void *)this : (void *)&ctxslot[ctx_gen - 1]; }
+    bool owns_ctx(const void *p) const { return p == (const void *)this || ((const uint8_t *)p >= ctxslot && (const uint8_t *)p < ctxslot + sizeof ctxslot); }
     // frames (and the tick) that arrived while the thread was busy: the socket buffer, ordered by arrival sequence number
     std::map<uint64_t, std::shared_ptr<Event>> pending;
     uint64_t wake_t = 0, wake_seq = 0; bool wake_set = false;
